@@ -312,3 +312,6 @@ func (t *Tty) ResizeLocked(w, h int) {
 		t.cb()
 	}
 }
+
+// ReadCount returns the number of Read calls so far (call with the lock held, e.g. from Locked).
+func (t *Tty) ReadCount() int64 { return atomic.LoadInt64(&t.reads) }
